@@ -24,6 +24,9 @@ Definition vset := list var.
 Definition vmem (x : var) (s : vset) : bool := existsb (Nat.eqb x) s.
 Definition vremove (x : var) (s : vset) : vset := filter (fun y => negb (Nat.eqb x y)) s.
 Definition vsubset (a b : vset) : bool := forallb (fun x => vmem x b) a.
+(* the same set without repetitions (keeps the sets small; the first occurrence stays) *)
+Fixpoint vnorm (s : vset) : vset :=
+  match s with [] => [] | x :: tl => x :: vremove x (vnorm tl) end.
 
 Fixpoint t_reads (t : test) : vset :=
   match t with Known _ => [] | Unknown _ rd => rd | TNot t' => t_reads t' end.
@@ -60,10 +63,10 @@ Fixpoint lv_stmt (n : nat) (s : stmt) (o b c x : vset) {struct s} : vset :=
   | SRaise => x
   | SBreak => b
   | SContinue => c
-  | SIf t b1 b2 => t_reads t ++ blk b1 o b c ++ blk b2 o b c
+  | SIf t b1 b2 => vnorm (t_reads t ++ blk b1 o b c ++ blk b2 o b c)
   | SLoop h bd el =>
       let x0 := h_iter_reads h ++ blk el o b c in
-      h_entry_reads h ++ iter_n n (fun X => x0 ++ blk bd X o X) x0
+      h_entry_reads h ++ iter_n n (fun X => vnorm (x0 ++ blk bd X o X)) (vnorm x0)
   end.
 Fixpoint lv_block (n : nat) (l : list stmt) (o b c x : vset) : vset :=
   match l with
@@ -74,7 +77,7 @@ Definition loop_x0 (n : nat) (h : head) (el : list stmt) (o b c x : vset) : vset
   h_iter_reads h ++ lv_block n el o b c x.
 Definition loop_head (n : nat) (h : head) (bd el : list stmt) (o b c x : vset) : vset :=
   let x0 := loop_x0 n h el o b c x in
-  iter_n n (fun X => x0 ++ lv_block n bd X o X x) x0.
+  iter_n n (fun X => vnorm (x0 ++ lv_block n bd X o X x)) (vnorm x0).
 
 (* checker: p' is p with some assignments un-assigned, each of them dead in p' *)
 Fixpoint ok_stmt (n : nat) (s s' : stmt) (o b c x : vset) {struct s} : bool :=
@@ -134,3 +137,522 @@ Fixpoint uv_line (l : list stmt) : list stmt :=
 Definition uv_case_ok (n : nat) (c : list stmt * list stmt) : bool := uv_ok n (fst c) (snd c).
 Definition uv_line_case_ok (c : list stmt * list stmt) : bool :=
   forallb simple (fst c) && prog_eqb (uv_line (fst c)) (snd c).
+
+(* ============================================================================================== *)
+(* Part O : classes, methods, attribute lookup                                                     *)
+(* ============================================================================================== *)
+(* Names are numbers; the harness prints them:
+     classes  C<c>;  module functions f<n> (n < 1000), 1000 + j = the function moved out of a class for
+     method j ("_m<j>", or "_p<j>" for a private method), 2000 + 100 c + j = "_C<c>_m<j>";
+     methods  m<j> (j < 30), _p<j> (30..39, private), __q<j> (40..49, name-mangled),
+              __d<j>__ (>= 50, magic; 50 is __init__). *)
+Definition name := nat.
+Definition is_private (m : name) : bool := 30 <=? m.
+Definition is_mangled (m : name) : bool := (40 <=? m) && (m <? 50).
+Definition is_magic (m : name) : bool := 50 <=? m.
+Definition INIT : name := 50.
+Definition moved_name (j : name) : name := 1000 + j.
+Definition moved_name_c (c j : name) : name := 2000 + 100 * c + j.
+
+Inductive mkind := KPlain | KStatic | KClassm | KProp.
+Inductive recv :=
+| RMod                       (* f(...)                         a module-level name *)
+| RCls (c : name)            (* C.m(...)                       the class object *)
+| RNew (c : name)            (* C().m(...)                     a fresh instance *)
+| ROpq (c : name)            (* (lambda: C())().m(...)         an instance the rules cannot see through *)
+| RObj (c : name)            (* o<c>.m(...)                    a module variable that holds an instance of C *)
+| RSelf                      (* self.m(...) / cls.m(...)       the first parameter of the enclosing method *)
+| RSuper.                    (* super().m(...) *)
+Inductive act :=
+| AEv (k : nat)                              (* e(k) *)
+| AUse                                       (* u(self)           the first parameter used as a value *)
+| ACall (r : recv) (m : name) (nargs : nat)  (* r.m(0, ..., 0) *)
+| ARead (r : recv) (m : name)                (* _ = r.m           read, not called (properties) *)
+| ADyn (r : recv) (m : name) (nargs : nat)   (* getattr(r, "m")(0, ..., 0) *)
+| AInit (c : name).                          (* o<c> = C<c>()     only in the prelude of a module *)
+Record meth := mkMeth { m_name : name; m_kind : mkind; m_params : nat; m_body : list act }.
+(* c_alias: `a = m` in the class body (the attribute a is the function m at that point) *)
+Record cls := mkCls { c_name : name; c_base : option name; c_meths : list meth; c_alias : list (name * name) }.
+Record func := mkFunc { f_name : name; f_params : nat; f_body : list act }.
+Inductive item := IClass (c : cls) | IFunc (f : func).
+(* m_vars: `o<c> = C<c>()` after the definitions; m_stores: `<function name> = 0` after them;
+   m_main: the statements that follow *)
+Record module := mkMod { m_items : list item; m_vars : list name; m_stores : list name; m_main : list act }.
+
+(* ---- semantics ---- *)
+Inductive selfv := SNone | SInst (c : name) | SCls (c : name) | SArg.
+Inductive tev := TEv (k : nat) | TUse (s : selfv).
+Inductive outc := OOk | OTypeErr | OAttrErr | ONameErr | ORunErr | OFuel.
+
+Definition nmem (x : name) (l : list name) : bool := existsb (Nat.eqb x) l.
+Fixpoint find_cls (its : list item) (c : name) : option cls :=
+  match its with
+  | [] => None
+  | IClass k :: tl => if Nat.eqb (c_name k) c then Some k else find_cls tl c
+  | _ :: tl => find_cls tl c
+  end.
+Fixpoint find_fn (its : list item) (f : name) : option func :=
+  match its with
+  | [] => None
+  | IFunc g :: tl => if Nat.eqb (f_name g) f then Some g else find_fn tl f
+  | _ :: tl => find_fn tl f
+  end.
+Fixpoint find_meth (ms : list meth) (m : name) : option meth :=
+  match ms with
+  | [] => None
+  | x :: tl => if Nat.eqb (m_name x) m then Some x else find_meth tl m
+  end.
+Fixpoint find_alias (al : list (name * name)) (a : name) : option name :=
+  match al with
+  | [] => None
+  | (x, m) :: tl => if Nat.eqb x a then Some m else find_alias tl a
+  end.
+(* the attribute m in the namespace of class k: a method, or an alias of one *)
+Definition cls_attr (k : cls) (m : name) : option meth :=
+  match find_alias (c_alias k) m with
+  | Some m' => find_meth (c_meths k) m'
+  | None => find_meth (c_meths k) m
+  end.
+(* the classes of the inheritance chain of c, most derived first (fuel bounds cyclic bases) *)
+Fixpoint chain (its : list item) (fuel : nat) (c : name) : list cls :=
+  match fuel with
+  | O => []
+  | S f => match find_cls its c with
+           | None => []
+           | Some k => k :: match c_base k with Some b => chain its f b | None => [] end
+           end
+  end.
+Fixpoint lookup_in (ks : list cls) (m : name) : option (name * meth) :=
+  match ks with
+  | [] => None
+  | k :: tl => match cls_attr k m with Some x => Some (c_name k, x) | None => lookup_in tl m end
+  end.
+(* the part of the chain behind class `owner` (zero-argument super) *)
+Fixpoint after_owner (ks : list cls) (owner : name) : list cls :=
+  match ks with
+  | [] => []
+  | k :: tl => if Nat.eqb (c_name k) owner then tl else after_owner tl owner
+  end.
+Definition CHAIN_FUEL := 8.
+
+(* how a method found on the chain is bound: through an instance of class c, or through the class
+   object c.  Result: the value of the first parameter, and whether nargs explicit arguments fit. *)
+Inductive how := ViaInst (c : name) | ViaCls (c : name).
+Definition bind (h : how) (x : meth) (nargs : nat) : selfv * bool :=
+  match h, m_kind x with
+  | ViaInst c, KPlain => (SInst c, Nat.eqb (m_params x) (S nargs))
+  | ViaCls _, KPlain => ((if Nat.eqb nargs 0 then SNone else SArg), Nat.eqb (m_params x) nargs)
+  | _, KStatic => (SNone, Nat.eqb (m_params x) nargs)
+  | ViaInst c, KClassm | ViaCls c, KClassm => (SCls c, Nat.eqb (m_params x) (S nargs))
+  | ViaInst c, KProp => (SInst c, Nat.eqb (m_params x) 1)
+  | ViaCls _, KProp => (SNone, false)
+  end.
+
+Inductive target :=
+| TErr (o : outc)
+| TInt                       (* a module name that was rebound to 0 *)
+| TFn (g : func)
+| TMeth (h : how) (owner : name) (x : meth).
+
+Definition resolve (M : module) (self : selfv) (owner : option name) (r : recv) (m : name) : target :=
+  let its := m_items M in
+  let via (h : how) (ks : list cls) :=
+    match lookup_in ks m with Some (o, x) => TMeth h o x | None => TErr OAttrErr end in
+  let on_class (c : name) (mk : name -> how) :=
+    match find_cls its c with None => TErr ONameErr | Some _ => via (mk c) (chain its CHAIN_FUEL c) end in
+  match r with
+  | RMod => if nmem m (m_stores M) then TInt
+            else match find_fn its m with Some g => TFn g | None => TErr ONameErr end
+  | RCls c => on_class c ViaCls
+  | RNew c | ROpq c => on_class c ViaInst
+  | RObj c => if nmem c (m_vars M) then on_class c ViaInst else TErr ONameErr
+  | RSelf => match self with
+             | SInst c => via (ViaInst c) (chain its CHAIN_FUEL c)
+             | SCls c => via (ViaCls c) (chain its CHAIN_FUEL c)
+             | SArg => TErr OAttrErr
+             | SNone => TErr ONameErr
+             end
+  | RSuper => match self, owner with
+              | SInst c, Some o => via (ViaInst c) (after_owner (chain its CHAIN_FUEL c) o)
+              | SCls c, Some o => via (ViaCls c) (after_owner (chain its CHAIN_FUEL c) o)
+              | SArg, Some _ => TErr OTypeErr
+              | _, _ => TErr ORunErr
+              end
+  end.
+
+(* does evaluating the receiver create an instance (and run __init__)? *)
+Definition creates (r : recv) : option name :=
+  match r with RNew c | ROpq c => Some c | _ => None end.
+
+Definition res2 := (list tev * outc)%type.
+Definition andthen2 (r : res2) (k : list tev -> res2) : res2 :=
+  match r with (tr, OOk) => k tr | _ => r end.
+
+Fixpoint run (M : module) (fuel : nat) (self : selfv) (owner : option name) (body : list act)
+             (tr : list tev) {struct fuel} : res2 :=
+  match fuel with
+  | O => (tr, OFuel)
+  | S f =>
+      match body with
+      | [] => (tr, OOk)
+      | a :: rest =>
+          let call (t : target) (nargs : nat) (read : bool) (tr : list tev) : res2 :=
+            match t with
+            | TErr o => (tr, o)
+            | TInt => if read then (tr, OOk) else (tr, OTypeErr)
+            | TFn g => if read then (tr, OOk)
+                       else if Nat.eqb (f_params g) nargs then run M f SNone None (f_body g) tr
+                       else (tr, OTypeErr)
+            | TMeth h o x =>
+                let (sv, fits) := bind h x nargs in
+                match m_kind x, read with
+                | KProp, true => match h with
+                                 | ViaInst _ => if fits then run M f sv (Some o) (m_body x) tr else (tr, OTypeErr)
+                                 | ViaCls _ => (tr, OOk)
+                                 end
+                | KProp, false => match h with
+                                  | ViaInst _ => if fits then andthen2 (run M f sv (Some o) (m_body x) tr)
+                                                                       (fun tr' => (tr', OTypeErr))
+                                                 else (tr, OTypeErr)
+                                  | ViaCls _ => (tr, OTypeErr)
+                                  end
+                | _, true => (tr, OOk)
+                | _, false => if fits then run M f sv (Some o) (m_body x) tr else (tr, OTypeErr)
+                end
+            end in
+          (* evaluating the receiver: C() runs __init__ when the chain defines it *)
+          let recv_then (r : recv) (k : list tev -> res2) : res2 :=
+            match creates r with
+            | None => k tr
+            | Some c =>
+                match find_cls (m_items M) c with
+                | None => (tr, ONameErr)
+                | Some _ =>
+                    match lookup_in (chain (m_items M) CHAIN_FUEL c) INIT with
+                    | None => k tr
+                    | Some (o, x) =>
+                        let (sv, fits) := bind (ViaInst c) x 0 in
+                        if fits
+                        then match m_kind x with
+                             | KProp => andthen2 (run M f sv (Some o) (m_body x) tr) (fun tr' => (tr', OTypeErr))
+                             | _ => andthen2 (run M f sv (Some o) (m_body x) tr) k
+                             end
+                        else (tr, OTypeErr)
+                    end
+                end
+            end in
+          let r1 : res2 :=
+            match a with
+            | AEv k => (tr ++ [TEv k], OOk)
+            | AUse => match self with
+                      | SNone => (tr, ONameErr)
+                      | _ => (tr ++ [TUse self], OOk)
+                      end
+            | ACall r m nargs => recv_then r (fun tr1 => call (resolve M self owner r m) nargs false tr1)
+            | ARead r m => recv_then r (fun tr1 => call (resolve M self owner r m) 0 true tr1)
+            | ADyn r m nargs => recv_then r (fun tr1 => call (resolve M self owner r m) nargs false tr1)
+            | AInit c => recv_then (RNew c) (fun tr1 => (tr1, OOk))
+            end in
+          andthen2 r1 (fun tr1 => run M f self owner rest tr1)
+      end
+  end.
+
+(* the module as a program: create the instance variables (their __init__ runs), then the statements *)
+Definition run_module (fuel : nat) (M : module) : res2 :=
+  run M fuel SNone None (map AInit (m_vars M) ++ m_main M) [].
+
+(* ---- syntax helpers shared by the rule models ---- *)
+Definition classes (M : module) : list cls :=
+  flat_map (fun it => match it with IClass k => [k] | _ => [] end) (m_items M).
+Definition funcs (M : module) : list func :=
+  flat_map (fun it => match it with IFunc g => [g] | _ => [] end) (m_items M).
+(* every action of the module with the class whose lines contain it *)
+Definition ctx_acts (M : module) : list (option name * act) :=
+  flat_map (fun it => match it with
+                      | IClass k => flat_map (fun x => map (fun a => (Some (c_name k), a)) (m_body x)) (c_meths k)
+                      | IFunc g => map (fun a => (None, a)) (f_body g)
+                      end) (m_items M)
+  ++ map (fun a => (None, a)) (m_main M).
+Definition pair_mem (p : name * name) (l : list (name * name)) : bool :=
+  existsb (fun q => Nat.eqb (fst p) (fst q) && Nat.eqb (snd p) (snd q)) l.
+Definition cfn (M : module) : list (name * name) :=
+  flat_map (fun k => map (fun x => (c_name k, m_name x)) (c_meths k)) (classes M).
+Definition opt_name_eqb (a b : option name) : bool :=
+  match a, b with Some x, Some y => Nat.eqb x y | None, None => true | _, _ => false end.
+(* the receiver mentions the class name c *)
+Definition recv_class (r : recv) : option name :=
+  match r with RCls c | RNew c | ROpq c => Some c | _ => None end.
+(* the attribute access (receiver, attribute) of an action; getattr with a string is none *)
+Definition attr_of (a : act) : option (recv * name) :=
+  match a with
+  | ACall RMod _ _ | ARead RMod _ => None
+  | ACall r m _ | ARead r m => Some (r, m)
+  | _ => None
+  end.
+
+(* ---------------------------------------------------------------------------------------------- *)
+(* object_oriented.remove_unused_self_cls (after the repairs: magic methods, methods looked up on a
+   class or read by the class body are left alone) *)
+Definition non_instance (k : cls) : list name :=
+  flat_map (fun x => match m_kind x with KStatic | KClassm => [m_name x] | _ => [] end) (c_meths k).
+Definition has_super (b : list act) : bool :=
+  existsb (fun a => match a with
+                    | ACall RSuper _ _ | ARead RSuper _ | ADyn RSuper _ _ => true
+                    | _ => false end) b.
+Definition inst_access (k : cls) (b : list act) : bool :=
+  existsb (fun a => match a with
+                    | AUse => true
+                    | ADyn RSelf _ _ | ARead RSelf _ => true
+                    | ACall RSelf m _ => negb (nmem m (non_instance k))
+                    | _ => false end) b.
+Definition static_access (k : cls) (b : list act) : bool :=
+  existsb (fun a => match a with ACall RSelf m _ => nmem m (non_instance k) | _ => false end) b.
+(* attributes looked up on a Name that is a class of the module, or on `cls` *)
+Definition looked_up_on_class (M : module) : list name :=
+  let cn := map c_name (classes M) in
+  flat_map (fun it => match it with
+     | IClass k => flat_map (fun x => flat_map (fun a =>
+          match attr_of a with
+          | Some (RCls c, m) => if nmem c cn then [m] else []
+          | Some (RSelf, m) => match m_kind x with KClassm => [m] | _ => [] end
+          | _ => [] end) (m_body x)) (c_meths k)
+     | IFunc g => flat_map (fun a => match attr_of a with
+                                     | Some (RCls c, m) => if nmem c cn then [m] else []
+                                     | _ => [] end) (f_body g)
+     end) (m_items M)
+  ++ flat_map (fun a => match attr_of a with
+                        | Some (RCls c, m) => if nmem c cn then [m] else []
+                        | _ => [] end) (m_main M).
+Definition rs_meth (looked : list name) (k : cls) (x : meth) : meth :=
+  if Nat.eqb (m_params x) 0 then x
+  else if is_magic (m_name x) then x
+  else if nmem (m_name x) (map snd (c_alias k)) then x
+  else if nmem (m_name x) looked && negb (nmem (m_name x) (non_instance k)) then x
+  else if has_super (m_body x) then x
+  else match m_kind x with
+       | KProp | KStatic => x
+       | kd =>
+           if inst_access k (m_body x) then x
+           else if static_access k (m_body x)
+                then match kd with KClassm => x | _ => mkMeth (m_name x) KClassm (m_params x) (m_body x) end
+                else mkMeth (m_name x) KStatic (pred (m_params x)) (m_body x)
+       end.
+Definition rs_item (looked : list name) (it : item) : item :=
+  match it with
+  | IClass k => IClass (mkCls (c_name k) (c_base k) (map (rs_meth looked k) (c_meths k)) (c_alias k))
+  | _ => it
+  end.
+Definition rs_pass (M : module) : module :=
+  mkMod (map (rs_item (looked_up_on_class M)) (m_items M)) (m_vars M) (m_stores M) (m_main M).
+Definition rs_model (M : module) : module := iter_n 5 rs_pass M.
+
+(* ---------------------------------------------------------------------------------------------- *)
+(* object_oriented.move_staticmethod_static_scope (after the repairs), preserve = {} *)
+Definition recognised_in (cf : list (name * name)) (ctx : option name) (r : recv) (m : name) : bool :=
+  match r with
+  | RCls c | RNew c => pair_mem (c, m) cf
+  | RSelf => match ctx with Some k => pair_mem (k, m) cf | None => false end
+  | _ => false
+  end.
+Definition recognised (M : module) := recognised_in (cfn M).
+Definition attrs_to_preserve (M : module) : list name :=
+  let cf := cfn M in
+  flat_map (fun ca => match attr_of (snd ca) with
+                      | Some (r, m) => if recognised_in cf (fst ca) r m then [] else [m]
+                      | None => [] end) (ctx_acts M).
+(* the classes strictly above d in its chain *)
+Definition ancestors (M : module) (d : cls) : list name :=
+  match c_base d with Some b => map c_name (chain (m_items M) CHAIN_FUEL b) | None => [] end.
+Definition overridden_in (cf : list (name * name)) (M : module) (k m : name) : bool :=
+  existsb (fun d => pair_mem (c_name d, m) cf && nmem k (ancestors M d)) (classes M).
+Definition overridden (M : module) := overridden_in (cfn M) M.
+Definition static_names (M : module) : list name := map f_name (funcs M) ++ m_stores M.
+Definition ms_new_name_in (atp sn : list name) (cf : list (name * name)) (M : module) (k : cls) (x : meth)
+  : option name :=
+  if nmem (m_name x) atp then None
+  else if nmem (m_name x) (map snd (c_alias k)) then None
+  else if is_magic (m_name x) then None
+  else match m_kind x with
+       | KStatic =>
+           if overridden_in cf M (c_name k) (m_name x) then None
+           else if is_mangled (m_name x) then None
+           else if negb (nmem (moved_name (m_name x)) sn) then Some (moved_name (m_name x))
+           else if negb (nmem (moved_name_c (c_name k) (m_name x)) sn)
+                then Some (moved_name_c (c_name k) (m_name x))
+                else None
+       | _ => None
+       end.
+Definition ms_new_name (M : module) :=
+  ms_new_name_in (attrs_to_preserve M) (static_names M) (cfn M) M.
+(* ((class, method), new name) for every method that moves *)
+Definition ms_plan (M : module) : list ((name * name) * name) :=
+  let atp := attrs_to_preserve M in
+  let sn := static_names M in
+  let cf := cfn M in
+  flat_map (fun k => match c_base k with
+                     | Some _ => []
+                     | None => flat_map (fun x => match ms_new_name_in atp sn cf M k x with
+                                                  | Some n => [((c_name k, m_name x), n)]
+                                                  | None => [] end) (c_meths k)
+                     end) (classes M).
+Fixpoint plan_find (pl : list ((name * name) * name)) (k m : name) : option name :=
+  match pl with
+  | [] => None
+  | ((k', m'), n) :: tl => if Nat.eqb k k' && Nat.eqb m m' then Some n else plan_find tl k m
+  end.
+Fixpoint nodup_names (l : list name) : bool :=
+  match l with [] => true | x :: tl => negb (nmem x tl) && nodup_names tl end.
+Definition ms_act (pl : list ((name * name) * name)) (ctx : option name) (a : act) : act :=
+  let redirect (r : recv) (m : name) : option name :=
+    match r with
+    | RCls c | RNew c => plan_find pl c m
+    | RSelf => match ctx with Some k => plan_find pl k m | None => None end
+    | _ => None
+    end in
+  match a with
+  | ACall r m n => match r with
+                   | RMod => a
+                   | _ => match redirect r m with Some f => ACall RMod f n | None => a end
+                   end
+  | ARead r m => match r with
+                 | RMod => a
+                 | _ => match redirect r m with Some f => ARead RMod f | None => a end
+                 end
+  | _ => a
+  end.
+Definition ms_items (pl : list ((name * name) * name)) (its : list item) : list item :=
+  flat_map (fun it =>
+    match it with
+    | IFunc g => [IFunc (mkFunc (f_name g) (f_params g) (map (ms_act pl None) (f_body g)))]
+    | IClass k =>
+        let ctx := Some (c_name k) in
+        flat_map (fun x => match plan_find pl (c_name k) (m_name x) with
+                           | Some n => [IFunc (mkFunc n (m_params x) (map (ms_act pl ctx) (m_body x)))]
+                           | None => [] end) (c_meths k)
+        ++ [IClass (mkCls (c_name k) (c_base k)
+                      (flat_map (fun x => match plan_find pl (c_name k) (m_name x) with
+                                          | Some _ => []
+                                          | None => [mkMeth (m_name x) (m_kind x) (m_params x)
+                                                            (map (ms_act pl ctx) (m_body x))] end) (c_meths k))
+                      (c_alias k))]
+    end) its.
+Definition ms_pass (M : module) : module :=
+  let pl := ms_plan M in
+  if nodup_names (map snd pl)
+  then mkMod (ms_items pl (m_items M)) (m_vars M) (m_stores M) (map (ms_act pl None) (m_main M))
+  else M.
+Definition ms_model (M : module) : module := iter_n 5 ms_pass M.
+
+(* ---------------------------------------------------------------------------------------------- *)
+(* fixes.delete_unused_functions_and_classes, preserve = {} *)
+Definition attr_used_in (ca : list (option name * act)) (cs : list cls) (m : name) : bool :=
+  existsb (fun ca => match attr_of (snd ca) with Some (_, m') => Nat.eqb m m' | None => false end) ca
+  || existsb (fun k => nmem m (map snd (c_alias k))) cs.
+Definition attr_used (M : module) := attr_used_in (ctx_acts M) (classes M).
+Definition mod_call_of (a : act) : option name :=
+  match a with ACall RMod f _ | ARead RMod f => Some f | _ => None end.
+(* f is read as a plain name somewhere outside its own definition *)
+Definition fn_used (M : module) (f : name) : bool :=
+  let uses (b : list act) := existsb (fun a => match mod_call_of a with Some g => Nat.eqb f g | None => false end) b in
+  existsb (fun it => match it with
+                     | IFunc g => negb (Nat.eqb (f_name g) f) && uses (f_body g)
+                     | IClass k => existsb (fun x => uses (m_body x)) (c_meths k)
+                     end) (m_items M)
+  || uses (m_main M).
+Definition act_class (a : act) : option name :=
+  match a with ACall r _ _ | ARead r _ | ADyn r _ _ => recv_class r | AInit c => Some c | _ => None end.
+Definition is_dyn (a : act) : bool := match a with ADyn _ _ _ => true | _ => false end.
+(* the class name C<c> is written somewhere (any use) *)
+Definition cls_named_in (ca : list (option name * act)) (cs : list cls) (vars : list name) (c : name) : bool :=
+  existsb (fun k => opt_name_eqb (c_base k) (Some c)) cs
+  || nmem c vars
+  || existsb (fun ca => opt_name_eqb (act_class (snd ca)) (Some c)) ca.
+Definition cls_named (M : module) := cls_named_in (ctx_acts M) (classes M) (m_vars M).
+(* ... outside the plain names inside the class itself (an attribute access counts everywhere) *)
+Definition cls_used_in (ca : list (option name * act)) (cs : list cls) (vars : list name) (c : name) : bool :=
+  existsb (fun k => opt_name_eqb (c_base k) (Some c)) cs
+  || nmem c vars
+  || existsb (fun ca => opt_name_eqb (act_class (snd ca)) (Some c)
+                        && (negb (is_dyn (snd ca)) || negb (opt_name_eqb (fst ca) (Some c)))) ca.
+Definition cls_used (M : module) := cls_used_in (ctx_acts M) (classes M) (m_vars M).
+Definition meth_kept_in (ca : list (option name * act)) (cs : list cls) (vars : list name) (k : cls) (x : meth) : bool :=
+  match c_base k with
+  | Some _ => true
+  | None => attr_used_in ca cs (m_name x) || (is_magic (m_name x) && cls_named_in ca cs vars (c_name k))
+  end.
+Definition meth_kept (M : module) := meth_kept_in (ctx_acts M) (classes M) (m_vars M).
+Definition du_pass (M : module) : module :=
+  let ca := ctx_acts M in
+  let cs := classes M in
+  let vars := m_vars M in
+  mkMod (flat_map (fun it => match it with
+                             | IFunc g => if fn_used M (f_name g) then [it] else []
+                             | IClass k =>
+                                 (* the removal of a class overlaps the removals of its methods: the
+                                    scheduler keeps the inner ones, the class goes in a later pass *)
+                                 if cls_used_in ca cs vars (c_name k) || negb (forallb (meth_kept_in ca cs vars k) (c_meths k))
+                                 then [IClass (mkCls (c_name k) (c_base k)
+                                                     (filter (meth_kept_in ca cs vars k) (c_meths k)) (c_alias k))]
+                                 else []
+                             end) (m_items M))
+        (m_vars M) (m_stores M) (m_main M).
+Definition du_model (M : module) : module := iter_n 5 du_pass M.
+
+(* ---- decidable equality (items compared up to their order) ---- *)
+Definition kind_eqb (a b : mkind) : bool :=
+  match a, b with KPlain, KPlain | KStatic, KStatic | KClassm, KClassm | KProp, KProp => true | _, _ => false end.
+Definition recv_eqb (a b : recv) : bool :=
+  match a, b with
+  | RMod, RMod | RSelf, RSelf | RSuper, RSuper => true
+  | RCls x, RCls y | RNew x, RNew y | ROpq x, ROpq y | RObj x, RObj y => Nat.eqb x y
+  | _, _ => false
+  end.
+Definition act_eqb (a b : act) : bool :=
+  match a, b with
+  | AEv x, AEv y => Nat.eqb x y
+  | AUse, AUse => true
+  | ACall r m n, ACall r' m' n' | ADyn r m n, ADyn r' m' n' => recv_eqb r r' && Nat.eqb m m' && Nat.eqb n n'
+  | ARead r m, ARead r' m' => recv_eqb r r' && Nat.eqb m m'
+  | AInit c, AInit c' => Nat.eqb c c'
+  | _, _ => false
+  end.
+Definition meth_eqb (a b : meth) : bool :=
+  Nat.eqb (m_name a) (m_name b) && kind_eqb (m_kind a) (m_kind b) && Nat.eqb (m_params a) (m_params b)
+  && list_eqb act_eqb (m_body a) (m_body b).
+Definition cls_eqb (a b : cls) : bool :=
+  Nat.eqb (c_name a) (c_name b) && opt_name_eqb (c_base a) (c_base b)
+  && list_eqb meth_eqb (c_meths a) (c_meths b)
+  && list_eqb (fun p q => Nat.eqb (fst p) (fst q) && Nat.eqb (snd p) (snd q)) (c_alias a) (c_alias b).
+Definition func_eqb (a b : func) : bool :=
+  Nat.eqb (f_name a) (f_name b) && Nat.eqb (f_params a) (f_params b) && list_eqb act_eqb (f_body a) (f_body b).
+Definition item_eqb (a b : item) : bool :=
+  match a, b with IClass x, IClass y => cls_eqb x y | IFunc x, IFunc y => func_eqb x y | _, _ => false end.
+Definition items_eqb_perm (l m : list item) : bool :=
+  Nat.eqb (length l) (length m) && forallb (fun a => existsb (item_eqb a) m) l
+  && forallb (fun b => existsb (item_eqb b) l) m.
+Definition mod_eqb (a b : module) : bool :=
+  items_eqb_perm (m_items a) (m_items b) && list_eqb Nat.eqb (m_vars a) (m_vars b)
+  && list_eqb Nat.eqb (m_stores a) (m_stores b) && list_eqb act_eqb (m_main a) (m_main b).
+
+(* ---- correspondence plumbing ---- *)
+Inductive orule := ORs | OMs | ODu.
+Definition orule_model (r : orule) : module -> module :=
+  match r with ORs => rs_model | OMs => ms_model | ODu => du_model end.
+Definition o_case_ok (c : orule * module * module) : bool :=
+  let '(r, M, M') := c in mod_eqb (orule_model r M) M'.
+Definition tev_eqb (a b : tev) : bool :=
+  match a, b with
+  | TEv x, TEv y => Nat.eqb x y
+  | TUse SNone, TUse SNone | TUse SArg, TUse SArg => true
+  | TUse (SInst x), TUse (SInst y) | TUse (SCls x), TUse (SCls y) => Nat.eqb x y
+  | _, _ => false
+  end.
+Definition outc_eqb (a b : outc) : bool :=
+  match a, b with
+  | OOk, OOk | OTypeErr, OTypeErr | OAttrErr, OAttrErr | ONameErr, ONameErr | ORunErr, ORunErr | OFuel, OFuel => true
+  | _, _ => false
+  end.
+(* CPython's run of the printed module: trace and the class of the exception that ended it *)
+Definition o_sem_case_ok (c : module * list tev * outc) : bool :=
+  let '(M, tr, o) := c in
+  match run_module 200 M with (tr', o') => list_eqb tev_eqb tr tr' && outc_eqb o o' end.
